@@ -75,7 +75,7 @@ def post(tier, results):
 META = dict(
     level="model_checking",
     bounds={"quick": "tagging allocator over 65 construction programs + variety/special decoder trees of <= 6 nodes (build/decode, walk, size, serialize, copy, serialize_alloc, release) and 30 rejected/truncated inputs; every 3rd encoder + stream decoder (all buffers <= 12 bytes) under an asserting allocator; census of libc heap references over all 20 units",
-            "thorough": "all accepted skeletons <= 4 heads, 400 rejected inputs, all 27 encoders"},
+            "thorough": "all accepted skeletons <= 4 heads (all of S(3), every accepted 4-head sequence, every 4th rejected and every 16th still-open 4-head sequence), 400 rejected inputs, all 27 encoders"},
     assumptions=["allocator installed once before any item exists (precondition of the property)", "the harness's own scratch buffers use libc directly and are not routed (they are the client's memory)",
                  "census (gcc -c + nm -u per unit) is a coverage guard for call sites the harnesses do not reach; it is regenerated on every run"],
     outside=["allocator triples whose functions are inconsistent with each other"],
